@@ -171,6 +171,9 @@ pub struct GenCfg {
     /// a universe of about a hundred distinct resources (dynamic ids up to 17); only for engines
     /// that do not fetch (plan, invariance)
     pub many_res: bool,
+    /// a registration whose `running_time()` callback panics inside `add` (hint 0); nothing may
+    /// depend on such a system, its name stays taken
+    pub p_callback_panic: u64,
 }
 impl GenCfg {
     pub fn base() -> GenCfg {
@@ -192,6 +195,7 @@ impl GenCfg {
             p_unrelated: 10,
             max_batch_n: 3,
             many_res: false,
+            p_callback_panic: 0,
         }
     }
     pub fn profile(name: &str) -> GenCfg {
@@ -225,6 +229,7 @@ impl GenCfg {
                 c.max_n = 8;
             }
             "malformed" => {
+                c.p_callback_panic = 6;
                 c.messy_decl = true;
                 c.p_dup_name = 12;
                 c.p_unknown_dep = 12;
@@ -423,6 +428,10 @@ impl Gen {
                 v.push(Op::Sys { tag, name: name.clone(), deps, r, w, t });
             } else {
                 let (r, w) = self.access();
+                if self.rng.chance(self.cfg.p_callback_panic) {
+                    v.push(Op::Sys { tag, name: name.clone(), deps, r, w, t: 0 });
+                    continue;
+                }
                 v.push(Op::Sys { tag, name: name.clone(), deps, r, w, t });
             }
             if !name.is_empty() && !names.contains(&name) {
